@@ -1,5 +1,6 @@
 import CV.Proofs.StaticPath
 import CV.Proofs.Ranges
+import CV.Proofs.RangesMultipart
 /-
 C16 - Static files: only contents from inside the document root, exact byte ranges.
 
@@ -140,6 +141,171 @@ theorem static_answer (unq : Str → Str) (fs : FS) (content : Str → Bytes) (m
     simp only [specOk, Bool.and_eq_true] at hs
     exact hs.1
 
+/-! ### multipart/byteranges on the wire, conditional requests -/
+
+section Multipart
+open CV.Multipart
+
+/-- C16.multipart_roundtrip: an RFC 2046 / 7233 reader (`Multipart.readByteranges`: split at
+    CRLF "--" boundary, stop at the close-delimiter, header fields up to the empty line, parse
+    `Content-Range: bytes a-b/n`) applied to the byte stream `serve_file`'s generator produces
+    (`multipartBody`: boundary lines, part headers, seek + read per part, closing delimiter) yields
+    exactly one part per range, in request order, each labelled `bytes start-(stop-1)/len(file)`,
+    with the media type of the file and with the bytes `file[start:stop]` as payload - for EVERY
+    file, list of ranges (overlapping, out of order, duplicated, beyond EOF: `read` stops there),
+    media type and boundary, provided
+      * `hfree`: "--" boundary does not occur in a payload.  The code does NOT check this: the
+        boundary is `email.generator._make_boundary()` = 15 "=", 19 random decimal digits, "==",
+        drawn without looking at the file (see `multipart_collision_witness`);
+      * `hb`, `hct`: no CR in the boundary (true for every boundary of that shape, see
+        `code_boundary_no_cr`) nor in the media type (a header value). -/
+theorem multipart_roundtrip (file ctype bnd : Bytes) (rs : List (Nat × Nat))
+    (hb : (13 : UInt8) ∉ bnd) (hct : (13 : UInt8) ∉ ctype)
+    (hfree : ∀ r ∈ rs, ¬ dashBoundary bnd <:+: readAt file r.1 r.2) :
+    readByteranges bnd (multipartBody file ctype bnd rs) =
+      some (rs.map (fun r => (some (ctype.dropWhile isLWSP), partOf file r))) :=
+  readByteranges_body file ctype bnd rs hb hct hfree
+
+/-- The hypothesis `hfree` is needed, and the bare "CRLF--boundary does not occur in the payload"
+    would not be enough: a payload that merely STARTS with "--boundary" is cut off, because the
+    CRLF that ends the part's header block completes a delimiter. (boundary "B", file "--B\x01",
+    ranges 0-2 and 1-3: the body cannot be read back.) -/
+theorem multipart_collision_witness :
+    readByteranges [66] (multipartBody [45, 45, 66, 1] [116] [66] [(0, 3), (1, 4)]) ≠
+      some ([(0, 3), (1, 4)].map (fun r => (some [116], partOf [45, 45, 66, 1] r))) ∧
+    ¬ delimiter [66] <:+: readAt [45, 45, 66, 1] 0 3 ∧ dashBoundary [66] <:+: readAt [45, 45, 66, 1] 0 3 := by
+  decide +kernel
+
+/-- every boundary of the shape `_make_boundary` produces ("=" and decimal digits) is free of CR -/
+theorem code_boundary_no_cr (bnd : Bytes) (h : ∀ c ∈ bnd, c = 61 ∨ isDigitB c = true) : (13 : UInt8) ∉ bnd := by
+  intro hc
+  rcases h 13 hc with h | h
+  · exact absurd h (by decide)
+  · exact absurd h (by decide)
+
+/-- C16.multipart_length: the multipart answer announces NO Content-Length (the code deletes the
+    header; the body is delimited by chunked coding or by closing - C15's subject), status 206, the
+    boundary in the Content-Type, no top-level Content-Range; and the body the generator produces
+    has exactly this many bytes (what a length would have to be). -/
+theorem multipart_length (md : Nat) (http11 : Bool) (hv : Option Str) (file ctype bnd : Bytes) (w : MultiResp)
+    (h : serveMultipart md http11 hv file ctype bnd = some w) :
+    w.contentLength = none ∧ w.contentRange = none ∧ w.status = 206 ∧ w.contentType = sMultipartCT ++ bnd ∧
+    ∃ rs, getRanges md hv file.length = .ranges rs ∧ 2 ≤ rs.length ∧
+      w.body.length = 8 + bnd.length +
+        (rs.map (fun r => 49 + bnd.length + ctype.length + (natDec r.1).length + (natDec (r.2 - 1)).length +
+          (natDec file.length).length + (r.2 - r.1))).sum := by
+  unfold serveMultipart at h
+  split at h
+  · simp at h
+  · split at h
+    · rename_i r1 r2 rest hg
+      simp only [Option.some.injEq] at h
+      subst h
+      refine ⟨rfl, rfl, rfl, rfl, r1 :: r2 :: rest, hg, by simp, ?_⟩
+      have hs := ranges_sound md hv file.length _ hg
+      show (multipartBody file ctype bnd (r1 :: r2 :: rest)).length = _
+      rw [multipartBody_length]
+      congr 1
+      apply congrArg
+      apply List.map_congr_left
+      intro r hr
+      have := hs r hr
+      simp only [readAt, List.length_take, List.length_drop]
+      omega
+    · simp at h
+
+/-- C16.multipart_response_exact: whenever `serve_file` answers a Range request with a multipart
+    body, a client that reads that body with the boundary of the Content-Type header obtains parts
+    which satisfy the spec `respOk` of the property: exactly the requested satisfiable intervals,
+    each inside the file, labelled with its own position and the file's length, carrying exactly
+    those bytes; they are the parts of `serveRange`'s abstract answer, in the same order. -/
+theorem multipart_response_exact (md : Nat) (http11 : Bool) (hv : Option Str) (file ctype bnd : Bytes)
+    (w : MultiResp) (hb : (13 : UInt8) ∉ bnd) (hct : (13 : UInt8) ∉ ctype)
+    (hfree : ¬ dashBoundary bnd <:+: file)
+    (h : serveMultipart md http11 hv file ctype bnd = some w) :
+    ∃ ps, readByteranges bnd w.body = some ps ∧
+      serveRange md http11 hv file = .multi (ps.map (·.2)) ∧
+      respOk md http11 hv file (.multi (ps.map (·.2))) = true ∧
+      ∀ p ∈ ps, p.1 = some (ctype.dropWhile isLWSP) ∧ p.2.first ≤ p.2.last ∧ p.2.last < file.length ∧
+        p.2.total = file.length ∧ p.2.body = slice file p.2.first (p.2.last + 1) := by
+  unfold serveMultipart at h
+  split at h
+  · simp at h
+  · rename_i h11
+    split at h
+    · rename_i r1 r2 rest hg
+      simp only [Option.some.injEq] at h
+      subst h
+      have hrt := multipart_roundtrip file ctype bnd (r1 :: r2 :: rest) hb hct
+        (fun r _ hin => hfree (List.IsInfix.trans hin
+          ((List.take_prefix _ _).isInfix.trans (List.drop_suffix _ _).isInfix)))
+      have hsr : serveRange md http11 hv file = .multi ((r1 :: r2 :: rest).map (partOf file)) := by
+        unfold serveRange
+        simp only [h11, if_false, hg]
+      have hmap : ((r1 :: r2 :: rest).map (fun r => (some (ctype.dropWhile isLWSP), partOf file r))).map (·.2) =
+          (r1 :: r2 :: rest).map (partOf file) := by
+        rw [List.map_map]; rfl
+      refine ⟨_, hrt, by rw [hmap, hsr], by rw [hmap, ← hsr]; exact serveRange_ok md http11 hv file, ?_⟩
+      intro p hp
+      rw [List.mem_map] at hp
+      obtain ⟨r, hr, rfl⟩ := hp
+      have hs := ranges_sound md hv file.length _ hg r hr
+      refine ⟨rfl, ?_, ?_, rfl, ?_⟩
+      · show r.1 ≤ r.2 - 1; omega
+      · show r.2 - 1 < file.length; omega
+      · show readAt file r.1 r.2 = slice file r.1 (r.2 - 1 + 1)
+        have : r.2 - 1 + 1 = r.2 := by omega
+        rw [this]
+        simp only [readAt, slice]
+        rw [List.drop_take]
+    · simp at h
+
+/-- C16.conditional_decision: the decision table of `serve_file` for a request that carries
+    validators and (possibly) a Range header.  `Last-Modified` is always set (non-empty) before:
+      If-Unmodified-Since present and different from Last-Modified      -> 412, whatever the Range
+      else If-Modified-Since equal to Last-Modified                     -> 304 (GET/HEAD) / 412 (other methods)
+      else                                                              -> the Range answer (200 / 206 / 416)
+    Comparison is string equality with the formatted date; `If-Range` and entity tags are not
+    looked at. -/
+theorem conditional_decision (md : Nat) (http11 getOrHead : Bool) (lastmod : Str)
+    (ius ims hv : Option Str) (file : Bytes) (hl : lastmod ≠ []) :
+    serveCond md http11 getOrHead lastmod ius ims hv file =
+      if present ius = true ∧ ius ≠ some lastmod then .s412
+      else if ims = some lastmod then (if getOrHead = true then .s304 else .s412)
+      else .ranged (serveRange md http11 hv file) := by
+  have hpl : present (some lastmod) = true := by simp [present, hl]
+  unfold serveCond validateSince
+  by_cases h1 : present ius = true ∧ ius ≠ some lastmod
+  · simp [hpl, h1.1, h1.2]
+  · by_cases h2 : ims = some lastmod
+    · have h1' : ¬ (present ius = true ∧ ¬ ius = some lastmod) := h1
+      cases getOrHead <;> simp [hpl, h1', h2]
+    · have h1' : ¬ (present ius = true ∧ ¬ ius = some lastmod) := h1
+      simp [hpl, h1', h2]
+
+/-- C16.conditional_range_exact: a conditional request is answered 304 / 412 - no bytes of the
+    file at all - or with a Range answer that satisfies the spec of the property; and the Range
+    header has no influence on whether the validators end the request. -/
+theorem conditional_range_exact (md : Nat) (http11 getOrHead : Bool) (lastmod : Str)
+    (ius ims hv : Option Str) (file : Bytes) :
+    (∀ r, serveCond md http11 getOrHead lastmod ius ims hv file = .ranged r →
+        respOk md http11 hv file r = true) ∧
+    (∀ hv', (serveCond md http11 getOrHead lastmod ius ims hv file = .s304 ↔
+              serveCond md http11 getOrHead lastmod ius ims hv' file = .s304) ∧
+            (serveCond md http11 getOrHead lastmod ius ims hv file = .s412 ↔
+              serveCond md http11 getOrHead lastmod ius ims hv' file = .s412)) := by
+  constructor
+  · intro r h
+    unfold serveCond at h
+    split at h <;> simp at h
+    subst h
+    exact serveRange_ok md http11 hv file
+  · intro hv'
+    unfold serveCond
+    constructor <;> split <;> simp
+
+end Multipart
+
 /-! ### non-vacuity -/
 
 def exRoot : Str := ['/', 'b', '/', 'r']
@@ -162,5 +328,26 @@ example : serveRange 4300 true (some ['b', 'y', 't', 'e', 's', '=', '2', '-', '3
     .single 2 ⟨2, 3, 5, [12, 13]⟩ := by decide
 example : serveRange 4300 true (some ['b', 'y', 't', 'e', 's', '=', '9', '-']) [10, 11] = .e416 (some 2) := by decide
 example : serveRange 4300 true (some ['b', 'y', 't', 'e', 's', '=', 'a', '-', 'b']) [10, 11] = .full 2 [10, 11] := by decide
+
+-- multipart: a boundary of the code's shape, two overlapping out-of-order ranges; the hypotheses hold
+def exBnd : Bytes := [61, 61, 49, 50, 61, 61]
+def exFile : Bytes := [10, 11, 12, 13, 14, 15, 16]
+example : (13 : UInt8) ∉ exBnd ∧ (13 : UInt8) ∉ ([116, 47, 112] : Bytes) ∧
+    (∀ r ∈ [(3, 6), (1, 4)], ¬ dashBoundary exBnd <:+: readAt exFile r.1 r.2) ∧
+    ¬ dashBoundary exBnd <:+: exFile ∧ (∀ c ∈ exBnd, c = 61 ∨ Multipart.isDigitB c = true) := by decide +kernel
+example : Multipart.readByteranges exBnd (multipartBody exFile [116, 47, 112] exBnd [(3, 6), (1, 4)]) =
+    some [(some [116, 47, 112], ⟨3, 5, 7, [13, 14, 15]⟩), (some [116, 47, 112], ⟨1, 3, 7, [11, 12, 13]⟩)] := by
+  decide +kernel
+example : (serveMultipart 4300 true (some ['b', 'y', 't', 'e', 's', '=', '3', '-', '5', ',', '1', '-', '3'])
+    exFile [116, 47, 112] exBnd).map (fun w => (w.status, w.contentLength, w.body.length)) = some (206, none, 142) := by
+  decide +kernel
+-- conditional requests: each row of the table occurs
+def exLm : Str := ['M', 'o', 'n']
+example : exLm ≠ [] := by decide
+example : serveCond 4300 true true exLm (some ['T', 'u', 'e']) none (some ['b', 'y', 't', 'e', 's', '=', '0', '-', '0']) exFile = .s412 := by decide
+example : serveCond 4300 true true exLm (some exLm) (some exLm) (some ['b', 'y', 't', 'e', 's', '=', '0', '-', '0']) exFile = .s304 := by decide
+example : serveCond 4300 true false exLm none (some exLm) none exFile = .s412 := by decide
+example : serveCond 4300 true true exLm (some exLm) (some ['T', 'u', 'e']) (some ['b', 'y', 't', 'e', 's', '=', '1', '-', '2']) exFile =
+    .ranged (.single 2 ⟨1, 2, 7, [11, 12]⟩) := by decide
 
 end CV.C16
